@@ -4,10 +4,11 @@ EXTENDS Seasoning
 X == <<"s", "str", "x">>
 Y == <<"s", "str", "y">>
 One == <<"s", "int", "1">>
+Nul == <<"s", "null", "">>
 MQ == <<"m", <<"q", One>>>>
 SQ == <<"q", <<One>>>>
 Ids == { <<"s", "str", "a">>, <<"s", "str", "b">>, <<"s", "str", "">>, <<"s", "int", "1">>, <<"none">> }
-Descs == { X, MQ, SQ, <<"none">> }
+Descs == { X, MQ, SQ, Nul, <<"none">> }
 Prices == { One, <<"none">> }
 Opt(name, v) == IF v = <<"none">> THEN <<>> ELSE <<name, v>>
 ItemKV(id, d, p, first) ==
@@ -15,8 +16,8 @@ ItemKV(id, d, p, first) ==
     ELSE Opt("desc", d) \o Opt("price", p) \o Opt("id", id)
 Items == { <<"m", ItemKV(id, d, p, f)>> : id \in Ids, d \in Descs, p \in Prices, f \in BOOLEAN }
 ItemsSmall == { <<"m", ItemKV(id, d, p, TRUE)>> : id \in Ids \ {<<"s", "int", "1">>}, d \in Descs, p \in Prices }
-Elems == Items \cup {X, SQ}
-ElemsSmall == ItemsSmall \cup {X, SQ}
+Elems == Items \cup {X, SQ, Nul}
+ElemsSmall == ItemsSmall \cup {X, SQ, Nul}
 
 Wrap(attrval) == <<"m", <<"other", One, "items", attrval>>>>
 SeqNodes(E) == { Wrap(<<"q", <<>>>>) } \cup { Wrap(<<"q", <<e>>>>) : e \in E }
